@@ -9,6 +9,7 @@ clean tree); `--all` emits every candidate (used by tools/discover.py to (re)bui
 """
 import json
 import os
+import re
 import sys
 
 sys.path.insert(0, os.path.dirname(os.path.abspath(__file__)))
@@ -134,8 +135,14 @@ def fam_c01_isvalid(man):
     return out
 
 
-VC_SCRIPT = ('  try any_goals (exact ⇓ _ => ⌜True⌝)\n  all_goals (try (mleave; done))\n'
+# loop invariants: nothing is known about the accumulators; a `raise` inside a loop body must be a validation error
+VC_SCRIPT = ('  try any_goals (exact post⟨fun _ => ⌜True⌝, fun e => ⌜e.isValidation = true⌝⟩)\n'
+             '  all_goals (try (mleave; done))\n'
              '  all_goals (clear_jps; py_vc)\n')
+
+# the heartbeat budget is per declaration and a contract proof is the sum of 20-60 small verification conditions
+# (each well under a second); 5x the default keeps every file under about a minute
+CONTRACT_HEARTBEATS = 1000000
 
 # hand-proved triples (lean/Lemmas/Contracts.lean) used instead of unfolding the function
 CONTRACTS = {
@@ -153,14 +160,40 @@ CONTRACTS = {
 }
 
 
+# partial-correctness mode (exceptional post-condition `True`): no safety conditions are generated at all
+CONTRACTS_PC = dict(CONTRACTS, **{
+    'stdnum.luhn:checksum': 'Py.Contracts.luhn_checksum_pc',
+    'stdnum.luhn:calc_check_digit': 'Py.Contracts.luhn_calc_check_digit_pc',
+    'stdnum.iso7064.mod_97_10:checksum': 'Py.Contracts.mod_97_10_checksum_pc',
+    'stdnum.iso7064.mod_97_10:calc_check_digits': 'Py.Contracts.mod_97_10_calc_check_digits_pc',
+    'stdnum.iso7064.mod_97_10:_to_base10': 'Py.Contracts.to_base10_pc',
+})
+PC_ERASE = ['Py.intOf_spec', 'Py.intOfBase_spec', 'Py.getItem_spec', 'Py.getItem_spec2', 'Py.getItemL_spec', 'Py.getItemL_spec2',
+            'Py.index_spec', 'Py.indexL_spec', 'Py.dictGet_spec', 'Py.optGet_spec', 'Py.pymod_spec', 'Py.pyfloordiv_spec',
+            'Py.pydivmod_spec', 'Py.mkDate_spec', 'Py.monthrangeDays_spec', 'Py.ord_spec', 'Py.chr_spec', 'Py.asciiOnly_spec',
+            'Py.mapM_spec', 'Py.filterMapM_spec', 'Py.maxInt_spec', 'Py.minInt_spec', 'Py.pypow_spec', 'Py.pypowmod_spec',
+            'Py.pyshl_spec', 'Py.pyshr_spec', 'Py.splitOnR_spec', 'Py.rsplitOnR_spec']
+PC_SPECS = ['Py.intOf_pc', 'Py.intOfBase_pc', 'Py.getItem_pc', 'Py.getItemL_pc', 'Py.index_pc', 'Py.indexL_pc', 'Py.dictGet_pc',
+            'Py.optGet_pc', 'Py.optGetT_pc', 'Py.pymod_pc', 'Py.pyfloordiv_pc', 'Py.pydivmod_pc', 'Py.mkDate_pc',
+            'Py.monthrangeDays_pc', 'Py.ord_pc', 'Py.chr_pc', 'Py.asciiOnly_pc', 'Py.mapM_pc', 'Py.filterMapM_pc',
+            'Py.maxInt_pc', 'Py.minInt_pc', 'Py.pypow_pc', 'Py.pypowmod_pc', 'Py.pyshl_pc', 'Py.pyshr_pc', 'Py.splitOnR_pc',
+            'Py.rsplitOnR_pc', 'Py.groupNamedR_pc', 'Py.groupR_pc']
+VC_SCRIPT_PC = ('  try any_goals (exact post⟨fun _ => ⌜True⌝, fun _ => ⌜True⌝⟩)\n'
+                '  all_goals (try (mleave; done))\n'
+                '  all_goals (clear_jps; py_vc)\n')
+GENERIC_MODULES = {'stdnum.luhn', 'stdnum.verhoeff', 'stdnum.damm', 'stdnum.iso7064.mod_11_10', 'stdnum.iso7064.mod_11_2',
+                   'stdnum.iso7064.mod_37_2', 'stdnum.iso7064.mod_37_36', 'stdnum.iso7064.mod_97_10'}
+
+
 def _is_candidate(F, mod):
     v = F.get(mod + ':validate')
     return bool(v and v['ok'] and v['rtype'] == 'str' and v['params'] and v['ptypes'][0] == 'str')
 
 
-def contract_closure(F, key):
+def contract_closure(F, key, contracts=None, no_callee=()):
     """functions to unfold, hand-proved contracts to use, and `validate` functions of other modules whose own
     generated contract is used as a spec (so nothing is proved twice and proofs stay small)"""
+    contracts = CONTRACTS if contracts is None else contracts
     mod = key.split(':')[0]
     unfold, specs, callees = [], [], []
     seen, st = set(), [key]
@@ -169,10 +202,11 @@ def contract_closure(F, key):
         if k in seen or k not in F:
             continue
         seen.add(k)
-        if k in CONTRACTS:
-            specs.append(CONTRACTS[k])
+        if k in contracts:
+            specs.append(contracts[k])
             continue
-        if k != key and k.endswith(':validate') and k.split(':')[0] != mod and _is_candidate(F, k.split(':')[0]):
+        if (k != key and k.endswith(':validate') and k.split(':')[0] != mod and _is_candidate(F, k.split(':')[0])
+                and k.split(':')[0] not in no_callee):
             callees.append(k)
             continue
         unfold.append(k)
@@ -183,24 +217,29 @@ def contract_closure(F, key):
     return unfold, specs, callees
 
 
-def _contract(man, fam, post, post_name):
+def _contract(man, fam, post, post_name, exc='e.isValidation = true', pc=False, exclude=()):
+    """one theorem per module: Holds (validate args) (fun v => post) (fun e => exc).  pc=True: partial-correctness
+    mode (exc must be `True`): primitives get specs without safety preconditions, so the only verification conditions
+    are the post-condition on each return path."""
     F = man['functions']
     out = []
     cand_ok = {}
+    contracts = CONTRACTS_PC if pc else CONTRACTS
+    script = VC_SCRIPT_PC if pc else VC_SCRIPT
 
     def full_ok(mod, depth=0):
         """every function that has to be unfolded (here or in a callee's own proof) is translated"""
         if mod not in cand_ok:
             cand_ok[mod] = False
-            unfold, _, callees = contract_closure(F, mod + ':validate')
+            unfold, _, callees = contract_closure(F, mod + ':validate', contracts, exclude)
             cand_ok[mod] = all(F[c]['ok'] for c in unfold) and all(full_ok(c.split(':')[0]) for c in callees)
         return cand_ok[mod]
 
     for mod, m in sorted(man['modules'].items()):
-        if not _is_candidate(F, mod) or not full_ok(mod):
+        if not _is_candidate(F, mod) or not full_ok(mod) or mod in exclude:
             continue
         v = F[mod + ':validate']
-        unfold, specs, callees = contract_closure(F, mod + ':validate')
+        unfold, specs, callees = contract_closure(F, mod + ':validate', contracts, exclude)
         ns = m['ns']
         today = '(today__ : Date) ' if v['today'] else ''
         bs = ' '.join('(%s : %s)' % (mangle(p) + "'", lean_type(t)) for p, t in zip(v['params'], v['ptypes']))
@@ -215,15 +254,30 @@ def _contract(man, fam, post, post_name):
                 '(%s : %s)' % (mangle(p) + "'", lean_type(t)) for p, t in zip(cv['params'], cv['ptypes']))
             cargs = (' today__' if cv['today'] else '') + ''.join(' ' + mangle(p) + "'" for p in cv['params'])
             sname = 'Props.Auto.%s.%s.spec_%s_validate' % (fam, ns, cns)
-            pre += ('theorem %s %s :\n    ⦃⌜True⌝⦄ %s%s ⦃post⟨fun v => ⌜%s⌝, fun e => ⌜e.isValidation = true⌝⟩⦄ :=\n'
+            pre += ('theorem %s %s :\n    ⦃⌜True⌝⦄ %s%s ⦃post⟨fun v => ⌜%s⌝, fun %s => ⌜%s⌝⟩⦄ :=\n'
                     '  Py.triple_of_holds _ _ _ (Props.Auto.%s.%s.%s%s)\n\n' % (
-                        sname, cbs, cv['lean'], cargs, post, fam, cns, post_name, cargs))
+                        sname, cbs, cv['lean'], cargs, post, 'e' if re.search(r'\be\b', exc) else '_', exc, fam, cns, post_name, cargs))
             specs = specs + [sname]
         name = 'Props.Auto.%s.%s.%s' % (fam, ns, post_name)
-        src = pre + ('theorem %s %s%s :\n    Py.Holds (%s%s) (fun v => %s) (fun e => e.isValidation = true) := by\n'
-                     '  apply Py.holds_of_triple\n  mvcgen [%s]\n%s' % (
-                         name, today, bs, v['lean'], args, post,
-                         ', '.join([F[c]['lean'] for c in unfold] + sorted(set(specs)) + ['Py.stateT_pure_apply', 'Py.earlyReturn_eq']), VC_SCRIPT))
+        # registry constants (NumDB literals) must stay folded: mvcgen's simp runs out of recursion depth on them
+        dbs = set()
+        for c in unfold:
+            gp = os.path.join(common.LEAN_DIR, 'Gen', man['modules'][c.split(':')[0]]['ns'] + '.lean')
+            try:
+                dbs |= set(re.findall(r'Gen\.db_\w+\.db\b', open(gp).read()))
+            except OSError:
+                pass
+        # ... so the functions are unfolded by hand and the constant is abstracted before mvcgen runs
+        gen = ''
+        if dbs:
+            fl = [F[c]['lean'] for c in unfold]
+            gen = ''.join('  try unfold %s\n' % f for f in fl + fl) + ''.join(
+                '  try generalize %s = db__%d at *\n' % (d, i) for i, d in enumerate(sorted(dbs)))
+        extra = (['-' + x for x in PC_ERASE] + PC_SPECS) if pc else []
+        src = pre + ('set_option maxHeartbeats %d in\ntheorem %s %s%s :\n    Py.Holds (%s%s) (fun v => %s) (fun %s => %s) := by\n'
+                     '  apply Py.holds_of_triple\n%s  mvcgen [%s]\n%s' % (
+                         CONTRACT_HEARTBEATS, name, today, bs, v['lean'], args, post, 'e' if re.search(r'\be\b', exc) else '_', exc, gen,
+                         ', '.join([F[c]['lean'] for c in unfold] + sorted(set(specs)) + ['Py.stateT_pure_apply', 'Py.earlyReturn_eq'] + extra), script))
         out.append({'name': name, 'ns': ns, 'covers': mod, 'family': fam, 'src': src, 'imports': sorted(imports),
                     'prelude': 'open Py Std.Do\nset_option mvcgen.warning false\npy_setup\n'})
     return out
@@ -234,13 +288,74 @@ def fam_c01_contract(man):
     return _contract(man, 'C01c', 'True', 'validate_contract')
 
 
+def fam_c15_ascii(man):
+    """what validate() returns consists of ASCII characters only (C15); the eight generic modules return their argument"""
+    return _contract(man, 'C15a', 'AllIn isAscii v', 'validate_ascii', exc='True', pc=True, exclude=GENERIC_MODULES)
+
+
+def fam_c02_fixed(man):
+    """validate x = ok v -> validate v = ok v and strip v = v, for the modules whose validate() returns its compact()
+    result after an `isdigits` gate on the whole number.  Three steps per module: (a) a partial-correctness contract
+    `compact x = ok v and IsDigits v` (compact is not unfolded: it gets the reflexive spec), (b) compact is the
+    identity on digit strings, (c) the generated C03 theorem `compact x = compact y -> validate x = validate y`."""
+    F = man['functions']
+    out = []
+    for mod, m in sorted(man['modules'].items()):
+        v, c = F.get(mod + ':validate'), F.get(mod + ':compact')
+        if mod in GENERIC_MODULES or not _is_candidate(F, mod) or not c or not c['ok'] or mod in C03_EXCLUDED:
+            continue
+        if c['params'] != ['number'] or c['ptypes'] != ['str'] or c['today'] or c['rtype'] != 'str':
+            continue
+        ckey = mod + ':compact'
+        unfold, specs, callees = contract_closure(F, mod + ':validate', dict(CONTRACTS_PC, **{ckey: None}), GENERIC_MODULES)
+        if not all(F[k]['ok'] for k in unfold) or callees:
+            continue     # wrappers around another module's validate: later
+        specs = [x for x in specs if x]
+        ns = m['ns']
+        today = '(today__ : Date) ' if v['today'] else ''
+        bs = ' '.join('(%s : %s)' % (mangle(p) + "'", lean_type(t)) for p, t in zip(v['params'], v['ptypes']))
+        first = mangle(v['params'][0]) + "'"
+        vt = ' today__' if v['today'] else ''
+        opts = ''.join(' ' + mangle(p) + "'" for p in v['params'][1:])
+        imports = {'Gen.' + man['modules'][k.split(':')[0]]['ns'] for k in unfold} | {'Gen.' + ns, 'Lemmas.Contracts', 'Props.Auto.C03_' + ns}
+        pfx = 'Props.Auto.C02f.%s' % ns
+        mv = ', '.join([F[k]['lean'] for k in unfold] + sorted(set(specs)) + [pfx + '.compact_graph', 'Py.stateT_pure_apply', 'Py.earlyReturn_eq']
+                       + ['-' + x for x in PC_ERASE] + PC_SPECS)
+        src = (
+            'theorem %s.compact_graph (number : Str) :\n'
+            '    ⦃⌜True⌝⦄ %s number ⦃post⟨fun r => ⌜%s number = .ok r⌝, fun _ => ⌜True⌝⟩⦄ :=\n'
+            '  Py.pc_triple (fun _ h => h)\n\n' % (pfx, c['lean'], c['lean']) +
+            'set_option maxHeartbeats %d in\n'
+            'theorem %s.validate_shape %s%s :\n'
+            '    Py.Holds (%s%s %s%s) (fun v => %s %s = .ok v ∧ IsDigits v) (fun _ => True) := by\n'
+            '  apply Py.holds_of_triple\n  mvcgen [%s]\n%s\n' % (
+                CONTRACT_HEARTBEATS, pfx, today, bs, v['lean'], vt, first, opts, c['lean'], first, mv, VC_SCRIPT_PC) +
+            'theorem %s.compact_of_digits (v : Str) (h : IsDigits v) : %s v = .ok v := by\n'
+            '  unfold %s\n  py_compact_digits h\n\n' % (pfx, c['lean'], c['lean']) +
+            'theorem %s.validate_fixed %s%s (v : Str)\n'
+            '    (h : %s%s %s%s = .ok v) :\n'
+            '    %s%s v%s = .ok v ∧ Py.strip v = v := by\n'
+            '  have h1 := %s.validate_shape%s %s%s\n'
+            '  rw [h] at h1\n'
+            '  obtain ⟨hc, hd⟩ : %s %s = .ok v ∧ IsDigits v := h1\n'
+            '  have h2 := %s.compact_of_digits v hd\n'
+            '  have h3 := Props.Auto.C03.%s.validate_of_compact%s %s v%s (hc.trans h2.symm)\n'
+            '  exact ⟨h3 ▸ h, Py.strip_eq_self_of_asciiDigit v hd.2⟩\n' % (
+                pfx, today, bs, v['lean'], vt, first, opts, v['lean'], vt, opts,
+                pfx, vt, first, opts, c['lean'], first, pfx, ns, vt, first, opts))
+        out.append({'name': pfx + '.validate_fixed', 'ns': ns, 'covers': mod, 'family': 'C02f', 'src': src,
+                    'imports': sorted(imports),
+                    'prelude': 'open Py Std.Do\nset_option mvcgen.warning false\nset_option linter.unusedVariables false\npy_setup\n'})
+    return out
+
+
 def fam_c01_nonempty(man):
     """... and what it returns is a non-empty string (so bool(validate(x)) is True exactly when it returns)"""
     return _contract(man, 'C01n', 'v ≠ []', 'validate_nonempty')
 
 
-FAMILIES = {'C03': fam_c03, 'C04': fam_c04_format, 'C01v': fam_c01_isvalid, 'C01c': fam_c01_contract, 'C01n': fam_c01_nonempty}
-FAMILY_PROPERTY = {'C03': 'C03', 'C04': 'C04', 'C01v': 'C01', 'C01c': 'C01', 'C01n': 'C01'}
+FAMILIES = {'C15a': fam_c15_ascii, 'C02f': fam_c02_fixed, 'C03': fam_c03, 'C04': fam_c04_format, 'C01v': fam_c01_isvalid, 'C01c': fam_c01_contract, 'C01n': fam_c01_nonempty}
+FAMILY_PROPERTY = {'C15a': 'C15', 'C02f': 'C02', 'C03': 'C03', 'C04': 'C04', 'C01v': 'C01', 'C01c': 'C01', 'C01n': 'C01'}
 
 
 def emit(all_candidates=False, only_family=None):
